@@ -31,6 +31,7 @@ type Shared struct {
 	preempt         int
 	poolAdversarial bool
 	lockCheck       bool
+	raceCheck       bool
 	ignoreAsserts   bool
 	basePreempt     int
 	schedLimit      int
